@@ -303,7 +303,7 @@ pub fn check(s: &Scenario) -> CheckResult {
         let want_t: Result<i64, i32> = match gout[0] {
             GOut::Present(_, t) => Ok(t),
             GOut::Absent => Err(-1),
-            GOut::Err(e) => Err(e as i32),
+            GOut::Err(e) => Err(crate::sut::exp_code(e)),
         };
         let got_t = tg.get().map(|t| t.0).map_err(err_code);
         ensure!(got_t == want_t, "C15/time-getter", "op {}: TimeGetterFromGetter returns {:?}, expected {:?}", i, got_t, want_t);
@@ -321,7 +321,7 @@ fn big() -> BoxedStrategy<i64> {
     prop_oneof![3 => -1000i64..1000, 2 => -(1i64 << 60)..(1i64 << 60), 1 => prop_oneof![Just(0i64), Just(7), Just(-7), Just(1 << 60), Just(-(1 << 60))]].boxed()
 }
 fn op() -> BoxedStrategy<Op> {
-    let gout = prop_oneof![5 => (big(), big()).prop_map(|(v, t)| GOut::Present(v, t)), 2 => Just(GOut::Absent), 1 => (1u8..=2).prop_map(GOut::Err)];
+    let gout = prop_oneof![5 => (big(), big()).prop_map(|(v, t)| GOut::Present(v, t)), 2 => Just(GOut::Absent), 1 => (0u8..=2).prop_map(GOut::Err)];
     prop_oneof![
         4 => (big(), proptest::bool::weighted(0.7)).prop_map(|(v, ok)| Op::Set(v, ok)),
         2 => (0u8..2).prop_map(Op::Follow),
@@ -362,7 +362,7 @@ impl Property for C15 {
             Op::Set(v, _) | Op::CSet(v) | Op::SetDelta(v) | Op::SetTime(v) => big(*v),
             Op::ClockAdvance(d) => d.unsigned_abs() <= 1u64 << 50,
             Op::GetterOut(_, GOut::Present(v, t)) => big(*v) && big(*t),
-            Op::GetterOut(_, GOut::Err(e)) => (1..=2).contains(e),
+            Op::GetterOut(_, GOut::Err(e)) => *e <= 2,
             _ => true,
         })
     }
